@@ -257,9 +257,12 @@ def slipped(r, sd, sl):
     """positions of the slipped crystal, wrapped into a cell shifted along the periodic axes"""
     pbc = sd['pbc']
     pos1 = r.pos + sd['u']
-    bs = np.array([sl['boxshift'][k] if pbc[k] else 0.0 for k in range(3)])
+    # half the drawn shift: every atom then stays within one cell of its reference position, i.e. inside the 27
+    # candidates that dvect (hence displacement, disregistry) documents to compare
+    bs = np.array([0.5 * sl['boxshift'][k] if pbc[k] else 0.0 for k in range(3)])
     origin1 = r.origin + bs @ r.vects
     pos1, shift = DR.wrap(pos1, r.vects, origin1, pbc)
+    assert np.abs(shift).max() <= 1
     return pos1, origin1, shift
 
 
@@ -281,6 +284,49 @@ def rank_ok(vecs):
         return False
     sv = np.linalg.svd(vecs, compute_uv=False)
     return bool(sv[2] >= 0.05 * sv[0])
+
+
+def match_stable(p, q, theta_max, eps=1e-7):
+    """Would the documented p-q matching (best angle below theta_max, one q per p: the one whose length is closest to
+    the shortest p) come out the same under rounding-level changes, and is the matched set 3-D?  Only used to decide
+    where two computations may be compared; ties arise e.g. for a slip along a symmetry direction, where a displaced
+    neighbour vector bisects two reference vectors exactly."""
+    if len(p) < 3 or len(q) < 3:
+        return False
+    pm, qm = np.linalg.norm(p, axis=1), np.linalg.norm(q, axis=1)
+    c = (q @ p.T) / qm[:, None] / pm[None, :]
+    order = np.argsort(-c, axis=1)
+    best = c[np.arange(len(q)), order[:, 0]]
+    second = c[np.arange(len(q)), order[:, 1]]
+    cth = math.cos(math.radians(theta_max))
+    live = best > cth - eps
+    if np.any(live & (best < cth + eps)):
+        return False                                    # a theta_max decision within rounding
+    if np.any(live & (best - second < eps)):
+        return False                                    # two reference vectors equally good
+    pick = order[:, 0]
+    rad = np.abs(pm.min() - qm)
+    keep = []
+    for k in set(pick[live].tolist()):
+        js = np.nonzero(live & (pick == k))[0]
+        if len(js) > 1:
+            rs = np.sort(rad[js])
+            if rs[1] - rs[0] < eps * pm.min():
+                return False                            # two q equally close to r1 compete for one p
+        keep.append(js[np.argmin(rad[js])])
+    return rank_ok(q[np.array(keep, dtype=int)]) if len(keep) >= 3 else False
+
+
+def stable_atoms(N, per0, per1, theta, band_hit):
+    """per0 / per1: my per-atom (indices, vectors) in the reference / current system"""
+    th = 27.0 if theta is None else theta
+    st = np.zeros(N, dtype=bool)
+    for i in range(N):
+        if band_hit[i]:
+            continue
+        st[i] = match_stable(per0[i][1], per1[i][1], th)
+    nb = np.array([st[i] and bool(np.all(st[per1[i][0]])) for i in range(N)])
+    return st, nb
 
 
 def min_image(d, vects, pbc):
@@ -614,7 +660,7 @@ def oracle_strain(case):
         require(k in dct and np.array_equal(np.asarray(dct[k]), res[k], equal_nan=True),
                 lambda: 'Strain.asdict()[%r] differs from the property of that name' % k)
     # the function form
-    if case['wrapper']:
+    if case['wrapper'] and not few:
         if refmode == 'base':
             pw = [np.array(x, dtype=float) for x in st.p_vectors]
         else:
@@ -798,15 +844,31 @@ def oracle_slip(case):
                 Gg = np.array(st.G)
             nyeC = np.array(st.nye)
             strC = np.array(st.strain)
-            out = am.defect.nye_tensor(s1, [np.array(x, dtype=float) for x in st.p_vectors], cutoff=rc, **kw)
-        nyeF = np.asarray(out['Nye_tensor'])
+            if few:
+                out = None          # the function form needs at least one reference vector per atom
+            else:
+                out = am.defect.nye_tensor(s1, [np.array(x, dtype=float).reshape(-1, 3) for x in st.p_vectors], cutoff=rc, **kw)
         sc = max(1.0, amax(nyeC))
-        err = np.abs(nyeF - nyeC).reshape(N, -1).max(axis=1)
-        k = int(np.argmax(err))
-        require(err[k] <= 1e-8 * sc, lambda: 'Nye tensor of atom %d: Strain.nye =\n%r\nnye_tensor() =\n%r' % (k, nyeC[k], nyeF[k]))
-        err = np.abs(np.asarray(out['strain']) - strC).reshape(N, -1).max(axis=1)
-        k = int(np.argmax(err))
-        require(err[k] <= 1e-8, lambda: 'strain of atom %d: Strain.strain =\n%r\nnye_tensor() =\n%r' % (k, strC[k], np.asarray(out['strain'])[k]))
+        # class and function may only be compared where the matching is not decided by a tie (see match_stable)
+        if out is not None:
+            band = 1e-7 * rc
+            Ic, Jc, Dc, Lc = pair_table(pos1, r.vects, pbc, rc + band)
+            band_hit = np.zeros(N, dtype=bool)
+            band_hit[Ic[Lc >= rc - band]] = True
+            per0 = group_by_atom(N, I0, J0, D0)
+            per1 = group_by_atom(N, Ic, Jc, Dc)
+            stab, stab_nb = stable_atoms(N, per0, per1, case['theta'], band_hit)
+            nyeF = np.asarray(out['Nye_tensor'])
+            err = np.abs(np.asarray(out['strain']) - strC).reshape(N, -1).max(axis=1)
+            err[~stab] = 0.0
+            k = int(np.argmax(err))
+            require(err[k] <= 1e-8, lambda: 'strain of atom %d: Strain.strain =\n%r\nnye_tensor() =\n%r' % (k, strC[k], np.asarray(out['strain'])[k]))
+            err = np.abs(nyeF - nyeC).reshape(N, -1).max(axis=1)
+            err[~stab_nb] = 0.0
+            k = int(np.argmax(err))
+            require(err[k] <= 1e-8 * sc, lambda: 'Nye tensor of atom %d: Strain.nye =\n%r\nnye_tensor() =\n%r' % (k, nyeC[k], nyeF[k]))
+            if stab_nb.any() and amax(nyeC[stab_nb]) > 1e-4:
+                labels.add('nye_class_vs_function')
         nl = st.neighbors
         njudged = 0
         worst = 0.0
@@ -919,8 +981,10 @@ def oracle_invariance(case):
     p1 = pos1 + t_at1
     o0 = r.origin + t_cell
     o1 = origin1 + t_cell
-    p0, _ = DR.wrap(p0, r.vects, o0, pbc) if tm != 'origin' else (p0, None)
-    p1, _ = DR.wrap(p1, vects1, o1, pbc) if tm != 'origin' else (p1, None)
+    wpbc = [bool(x) for x in wmask]          # a slipped crystal is not re-wrapped along the cut axis (the halves are
+    #                                          defined by position along it)
+    p0, _ = DR.wrap(p0, r.vects, o0, wpbc) if tm != 'origin' else (p0, None)
+    p1, _ = DR.wrap(p1, vects1, o1, wpbc) if tm != 'origin' else (p1, None)
     s0b = mk_system(p0[perm], r.atype[perm], r.vects, o0, pbc)
     s1b = mk_system(p1[perm], r.atype[perm], vects1, o1, pbc)
     if not all(box_kept(s, v, o) for s, v, o in ((s0, r.vects, r.origin), (s1, vects1, origin1), (s0b, r.vects, o0), (s1b, vects1, o1))):
@@ -933,29 +997,15 @@ def oracle_invariance(case):
     # is matched to its own reference vector with half a degree to spare
     I0, J0, D0, _ = pair_table(r.pos, r.vects, pbc, rc)
     per = group_by_atom(N, I0, J0, D0)
-    thmax = 27.0 if case['theta'] is None else case['theta']
-    cth = math.cos(math.radians(max(thmax - 0.5, 0.0)))
-    stable = np.zeros(N, dtype=bool)
-    for i, (js, pv) in enumerate(per):
-        if not rank_ok(pv):
-            continue
-        if cfg == 'F':
-            stable[i] = True
-            continue
-        qv = pv + (sd['u'][js] - sd['u'][i])
-        if not rank_ok(qv):
-            continue
-        c = (qv / np.linalg.norm(qv, axis=1)[:, None]) @ (pv / np.linalg.norm(pv, axis=1)[:, None]).T
-        own = np.diag(c).copy()
-        np.fill_diagonal(c, -2.0)
-        stable[i] = bool(np.all(own > cth) and np.all(own > c.max(axis=1) + 1e-3))
-    stable_nb = np.array([stable[i] and bool(np.all(stable[js])) for i, (js, _) in enumerate(per)])
-    if cfg == 'slip':
-        # the deformed crystal's own list may hold further pairs: a neighbour outside the reference set must be stable too
-        I1, J1, _, _ = pair_table(pos1, vects1, pbc, rc * (1 + 1e-7))
-        unst = np.zeros(N, dtype=bool)
-        np.logical_or.at(unst, I1, ~stable[J1])
-        stable_nb &= ~unst
+    if cfg == 'F':
+        stable = np.array([rank_ok(v) for _, v in per])
+        stable_nb = np.array([stable[i] and bool(np.all(stable[js])) for i, (js, _) in enumerate(per)])
+    else:
+        band = 1e-7 * rc
+        Ib, Jb, Db, Lb = pair_table(pos1, vects1, pbc, rc + band)
+        band_hit = np.zeros(N, dtype=bool)
+        band_hit[Ib[Lb >= rc - band]] = True
+        stable, stable_nb = stable_atoms(N, per, group_by_atom(N, Ib, Jb, Db), case['theta'], band_hit)
     Ic, _, _, _ = pair_table(pos1, vects1, pbc, rc)
     few = bool(np.any(np.bincount(I0, minlength=N) < 2) or np.any(np.bincount(Ic, minlength=N) < 2))
     A = _outputs(am, s0, s1, rc, case['theta'], case['ddref'], slipinfo, few)
@@ -964,9 +1014,18 @@ def oracle_invariance(case):
     tol = 1e-8 + 256 * DR.EPS * scale
     what = 'after renumbering and translating both systems (%s)' % tm
     allat = np.ones(N, dtype=bool)
+    # displacement() / disregistry() compare the 27 images within one cell of pos1 - pos0 (C02): only atoms whose two
+    # copies are at most one cell apart in both pairs of systems are compared
+    if slipinfo is not None:
+        inv1 = np.linalg.inv(vects1)
+        kA = np.rint(((pos1 - r.pos) - sd['u']) @ inv1)
+        kB = np.rint(((p1 - p0) - sd['u']) @ inv1)
+        near = (np.abs(kA).max(axis=1) <= 1) & (np.abs(kB).max(axis=1) <= 1)
+    else:
+        near = allat
     keys = [('G', stable), ('strain', stable), ('rotation', stable), ('inv', stable), ('nye', stable_nb)]
     if slipinfo is not None:
-        keys += [('slip', allat), ('disp', allat)]
+        keys += [('slip', allat), ('disp', near)]
     elif tm == 'origin':
         # under a homogeneous deformation the displacement field is not lattice periodic: moving a reference atom by a
         # cell vector changes its imposed displacement, so displacement() is only compared when nothing is re-wrapped
@@ -996,7 +1055,9 @@ def oracle_invariance(case):
         err = np.abs(da[oa] - db[ob]).max(axis=1)
         k = int(np.argmax(err))
         require(err[k] <= tol, lambda: '%s: ddvector of pair %r changed: %r -> %r' % (what, divmod(int(ka[oa][k]), N), da[oa][k].tolist(), db[ob][k].tolist()))
-    if slipinfo is not None:
+    if slipinfo is not None and not near.all():
+        labels.add('disreg_not_compared')
+    if slipinfo is not None and near.all():
         ca, dra = A['disreg']
         cb, drb = B['disreg']
         if tm == 'origin':
@@ -1027,19 +1088,21 @@ def oracle_invariance(case):
 
 CLAUSES = [
     Clause('displacement', oracle_displacement, G17.displacement_cases, quick=640, thorough=12000,
-           min_share={'nt': 0.15, 'rewrapped': 0.25, 'direct': 0.35, 'box_differs': 0.08},
+           min_share={'nt': 0.3, 'rewrapped': 0.4, 'direct': 0.25, 'box_differs': 0.08, 'searched': 0.05},
            desc='displacement() = imposed displacement through the periodic boundaries (homogeneous F with deformed cell, rigid slip, '
                 'random per-atom vectors up to 0.45 cell widths, translations by several cells), every box_reference setting'),
     Clause('strain', oracle_strain, G17.strain_cases, quick=560, thorough=10000,
-           min_share={'nt': 0.15},
+           min_share={'nt': 0.15, 'F_both': 0.2, 'subset_dup': 0.06, 'wrapper': 0.1, 'surface': 0.15, 'axes_given': 0.08,
+                      'nbr_neighbors': 0.1, 'twotype': 0.15, 'theta_given': 0.15},
            desc='homogeneous F: Strain.G = F^-T at every atom with a 3-D neighbour set, strain/rotation/invariants/angular velocity, '
                 'zero Nye tensor, asdict, nye_tensor() function, (F-I).d0 differential displacements'),
     Clause('slip', oracle_slip, G17.slip_cases, quick=560, thorough=10000,
-           min_share={'nt': 0.15},
+           min_share={'nt': 0.15, 'slip_generic': 0.2, 'nye_class_vs_function': 0.12, 'nye_nonuniform': 0.12, 'cut_periodic': 0.1,
+                      'inplane_open': 0.1, 'ddref1': 0.15, 'both_halves_move': 0.2},
            desc='rigid slip: slip_vector = n_across x relative displacement of the own half, disregistry = slip at every coordinate, '
                 'ddvectors = u_j - u_i per listed pair (both references), Nye tensor of class / function / own curl agree'),
     Clause('invariance', oracle_invariance, G17.invariance_cases, quick=320, thorough=6000,
-           min_share={'nt': 0.15},
+           min_share={'nt': 0.25, 'cfg_slip': 0.2, 'cfg_F': 0.2, 'nye_compared': 0.5, 'rewrapped': 0.2},
            desc='all results unchanged (per-atom arrays permuted, pair list mapped) under a common translation with or without '
                 're-wrapping and a consistent renumbering'),
 ]
